@@ -461,6 +461,64 @@ int main(int argc, char **argv) {
     } else { rep.caps.push_back("dfs: depth " + std::to_string(d) + " not completed before the deadline"); for (auto &v : r.stats.viols) rep.st.viols.insert(v); break; }
   }
 
+  // ================= family: whole (uninterrupted runs): every byte sequence of length <= L at address 0 is executed by ONE call of
+  // Processor::run() for exactly as many instructions as the reference finds defined, and the final state is compared.  This is the
+  // family that sees state a single call keeps across instructions (anything the step-by-step families reset by re-entering run()).
+  {
+    static const uint8_t W[] = {0xFF, 0xE0, 0xE1, 0x3F, 0x31, 0x30, 0x41, 0x20, 0x21, 0x22, 0x00, 0x01, 0x02, 0xD1, 0x80, 0x81, 0x91, 0xA1, 0x51, 0xD3};
+    const int NW = sizeof(W); int L = ctx.thorough() ? 6 : 5;
+    uint64_t total = 0, pw = 1; std::vector<uint64_t> startOf; for (int l = 1; l <= L; l++) { pw *= NW; startOf.push_back(total); total += pw; }
+    phase(ctx, "whole: " + std::to_string(total) + " sequences");
+    auto seqOf = [&](uint64_t idx) { int l = 1; while (l < L && idx >= startOf[l]) l++; uint64_t r = idx - startOf[l - 1]; std::string q(l, '\0'); for (int k = l - 1; k >= 0; k--) { q[k] = (char)W[r % NW]; r /= NW; } return q; };
+    auto body = [&](uint64_t b, uint64_t e, const std::set<uint64_t> &skip, Stats &st, volatile uint64_t *cur) {
+      std::string dir = ctx.scratch + "/wh" + std::to_string(b); mkdir(dir.c_str(), 0755); if (chdir(dir.c_str())) exit(3);
+      {
+        Pair P; P.sim.calibrateK(); P.init(false);
+        for (uint64_t i = b; i < e; i++) {
+          *cur = i; if (skip.count(i)) continue;
+          if (ctx.expired()) { st.add("whole_skipped_deadline"); continue; }
+          std::string q = seqOf(i);
+          for (const char *input : {"", "A"}) {
+            uint32_t words = (q.size() + 3) / 4;
+            for (uint32_t w = 0; w < words; w++) { uint32_t v = 0; for (int l = 0; l < 4; l++) if (w * 4 + l < q.size()) v |= (uint32_t)(uint8_t)q[w * 4 + l] << (8 * l); P.poke(w, v); }
+            P.setRegs(0, 0, 0, 0); P.env = Env(); P.env.in = input; P.sim.setInput(input); P.sim.ob.data.clear();
+            size_t mark = P.ref.wlog.size(); size_t n = 0;
+            while (n < 20 && !P.env.exited && P.ref.classify(false) == refisa::DEFINED) { P.ref.step(P.env); n++; }
+            if (n == 0) { st.add("whole_skipped_first_step_undefined"); }
+            else {
+              int kind; std::string err; int rv = P.sim.runK(n, &kind, &err);
+              st.add("whole_runs"); st.add("whole_steps", n);
+              std::string res;
+              if (kind) res = "hexsim threw: " + err;
+              if (res.empty()) res = P.regDiff();
+              if (res.empty()) for (size_t k = mark; k < P.ref.wlog.size(); k++) { uint32_t ad = P.ref.wlog[k].first; if (P.sim.v.mem[ad] != P.ref.mem[ad]) res = "mem[" + std::to_string(ad) + "] ref " + std::to_string(P.ref.mem[ad]) + " hexsim " + std::to_string(P.sim.v.mem[ad]); }
+              if (res.empty() && P.env.exited && (uint32_t)rv != P.env.exitValue) res = "exit value differs";
+              if (res.empty() && (!*P.sim.v.running) != P.env.exited) res = "running flag differs";
+              if (res.empty() && P.sim.ob.data != P.env.out) res = "stdout differs";
+              if (res.empty() && P.sim.ib.consumed() != P.env.inPos) res = "input consumption differs";
+              if (!res.empty()) { st.violation("whole:" + std::string(res.find("mem[") == 0 ? "store" : res.find("threw") != std::string::npos ? "exception" : "state"), i, Obj().kv("family", "whole").kv("bytes_hex", hexs(q)).kv("input_hex", hexs(input)).kv("instructions", (uint64_t)n).kv("what", res + " after " + std::to_string(n) + " instructions executed by one call of run()").str()); memcpy(P.sim.v.mem, P.ref.mem.data(), refisa::MEM_WORDS * 4); }
+              bool selfmod = false; for (size_t k = mark; k < P.ref.wlog.size(); k++) if (P.ref.wlog[k].first < words) selfmod = true;
+              if (selfmod) st.add("whole_runs_storing_into_their_own_code");
+            }
+            for (size_t k = P.ref.wlog.size(); k > mark; k--) { uint32_t ad = P.ref.wlog[k - 1].first; P.sim.v.mem[ad] = P.ref.wlog[k - 1].second; }
+            P.ref.undoTo(mark);
+            for (uint32_t w = 0; w < words; w++) P.poke(w, 0);
+          }
+          if (i % 400009 == 0) st.sample(Obj().kv("family", "whole").kv("bytes_hex", hexs(q)).str(), 2);
+        }
+        if (P.firstMemDiff() >= 0) st.violation("whole:stray-write", b, Obj().kv("family", "whole").kv("chunk_begin", b).kv("what", "memory differs at the end of the chunk").str());
+        P.sim.destroy();
+        for (int n = 0; n < 8; n++) unlink(("simout" + std::to_string(n)).c_str());
+      }
+      if (chdir(ctx.scratch.c_str())) exit(3);
+      rmdir(dir.c_str());
+    };
+    auto r = run_chunks(ctx, "whole", total, 512, body, [&](uint64_t i) { return Obj().kv("family", "whole").kv("bytes_hex", hexs(seqOf(i))).str(); }, 120);
+    rep.st.merge(r.stats);
+    if (!r.complete || rep.st.c["whole_skipped_deadline"]) rep.caps.push_back("whole: deadline");
+    rep.bounds.kv("whole_sequence_length", L).kv("whole_alphabet", NW);
+  }
+
   // ================= family: runs (shipped programs in lock-step) + loader
   phase(ctx, "runs");
   {
@@ -531,9 +589,9 @@ int main(int argc, char **argv) {
 
   // ---- evidence
   auto &c = rep.st.c;
-  rep.states = c["dfs_states"] + c["grid_steps"] + c["svc_steps"];
+  rep.states = c["dfs_states"] + c["grid_steps"] + c["svc_steps"] + c["whole_runs"];
   rep.transitions = c["dfs_transitions"] + c["grid_steps"] + c["svc_steps"] + c["runs_steps"];
-  rep.validated = c["grid_steps"] + c["svc_steps"] + c["dfs_steps"] + c["runs_steps"];
+  rep.validated = c["grid_steps"] + c["svc_steps"] + c["dfs_steps"] + c["runs_steps"] + c["whole_steps"];
   rep.evaluations = rep.validated;
   rep.nontrivial = c["grid_steps"] + c["svc_steps"] + c["dfs_states"];
   rep.rule = "grid: every (instruction byte 0..255, pc lane, oreg, areg, breg) over the corner set K (registers an opcode ignores enumerated on 2 corners), patterned memory; "
